@@ -29,10 +29,10 @@ PrefixOf(cs, k) == Cat(LitOf(SubSeq(cs, 1, k)), Star(AnyC))
 Selects(flag, kind) ==
   CASE flag = "item" -> TRUE
     [] flag = "type" -> kind = "type"
-    [] flag = "function" -> kind = "function"
+    [] flag = "function" -> kind \in {"function", "method"}   \* methods are Function items, enabled by cc.methods
     [] flag = "var" -> kind \in {"var", "anonenum"}
 
-FlagFor(n) == IF D(n).kind = "anonenum" THEN "var" ELSE D(n).kind
+FlagFor(n) == IF D(n).kind = "anonenum" THEN "var" ELSE IF D(n).kind = "method" THEN "function" ELSE D(n).kind
 
 (* candidate patterns *)
 Patterns ==
@@ -46,13 +46,16 @@ Patterns ==
 Selected(p) == {n \in Decl : Selects(p.flag, D(n).kind) /\
                   \E cs \in Range(D(n).names) : WholeMatch(p.re, cs)}
 
-G(bl) == [nodes |-> [n \in Decl |-> [edges |-> [i \in DOMAIN D(n).deps |-> <<D(n).deps[i], D(n).edge[i]>>],
-                                     blocklisted |-> n \in bl, enabled |-> TRUE]],
+VARIABLES pats, bl, rec, fnsOn
+vars == <<pats, bl, rec, fnsOn>>
+
+G(bl_) == [nodes |-> [n \in Decl |-> [edges |-> [i \in DOMAIN D(n).deps |-> <<D(n).deps[i], D(n).edge[i]>>],
+                                     blocklisted |-> n \in bl_,
+                                     (* with --ignore-functions function items are not enabled for codegen *)
+                                     enabled |-> D(n).kind # "function" \/ fnsOn]],
           opt |-> [allowlist_recursively |-> TRUE, cc_types |-> TRUE, cc_vars |-> TRUE, cc_methods |-> TRUE,
                    cc_constructors |-> TRUE, cc_destructors |-> TRUE]]
 
-VARIABLES pats, bl, rec
-vars == <<pats, bl, rec>>
 
 Blockable == {n \in Decl : D(n).blockable}
 
@@ -60,11 +63,12 @@ Init == /\ pats \in {{p} : p \in Patterns}
                     \cup (IF MaxRoots >= 2 THEN {{p, q} : p \in Patterns, q \in Patterns} ELSE {})
         /\ bl \in {{}} \cup {{b} : b \in Blockable}
         /\ rec \in BOOLEAN
+        /\ fnsOn \in BOOLEAN
 
 Next == UNCHANGED vars
 Spec == Init /\ [][Next]_vars
 
-Roots == UNION {Selected(p) : p \in pats}
+Roots == {n \in UNION {Selected(p) : p \in pats} : D(n).kind # "function" \/ fnsOn}
 Expected ==
   LET g == [G(bl) EXCEPT !.opt.allowlist_recursively = rec]
   IN ExpectedCodegen(g, Roots)
@@ -76,7 +80,7 @@ SetToSeqOrd(S) ==
 
 Emit == PrintT(<<"CASE", ToJson([
           pats |-> SetToSeqOrd({[flag |-> p.flag, re |-> Show(p.re)] : p \in pats}),
-          bl |-> SetToSeqOrd(bl), rec |-> rec,
+          bl |-> SetToSeqOrd(bl), rec |-> rec, fns |-> fnsOn,
           roots |-> SetToSeqOrd(Roots), expected |-> SetToSeqOrd(Expected)])>>)
 
 (* L1 sanity on the generated space *)
